@@ -189,10 +189,14 @@ class _Num(object):
         return self._cmp(o, lambda a, b: a >= b)
 
     def __eq__(self, o):
+        if type(o).__name__ == "SymByte":
+            return o.__eq__(self)
         r = self._cmp(o, lambda a, b: a == b)
         return False if r is NotImplemented else r
 
     def __ne__(self, o):
+        if type(o).__name__ == "SymByte":
+            return o.__ne__(self)
         r = self._cmp(o, lambda a, b: a != b)
         return True if r is NotImplemented else r
 
@@ -493,7 +497,12 @@ class SymInt(_Num):
         raise core.Unsupported("symbolic int used as an index/range bound without a stated bound")
 
     def __str__(self):
-        raise core.Unsupported("str() of a symbolic int")
+        # reached only through C-level '%s' formatting (log / exception messages); conversions that matter go
+        # through the `str` shim of the repo modules.  The placeholder is not valid G-code, so a leak is loud.
+        return "<symbolic-int>"
+
+    def __format__(self, spec):
+        raise core.Unsupported("format() of a symbolic int")
 
     def __repr__(self):
         return "SymInt(%s)" % (self.t,)
